@@ -250,6 +250,24 @@ CLAIMED = {
             'Trusts hex()/MPZ(.,16) to be mutually inverse and the pickle protocol machinery of CPython; '
             'classes of clone contexts / fp / iv matrices are outside the property text and not checked.',
             'DESIGN.md section 4 (C40)'),
+    'C43': ('H-fp-wrappers',
+            'static analysis: shape rules on the three math2 wrappers, sibling-agreement rule over every '
+            'real/complex implementation pair (same math/cmath name, alpha-equivalence modulo '
+            'math->cmath, quadrant tables against the reduction identity), domain-discipline table for '
+            'the math functions, slot-table agreement of FPContext, raw-value escape rule',
+            'Clauses that are visible in the source: fp elementary functions always return the result of '
+            'a real or complex Python implementation applied to float()/complex() of the argument; a real '
+            'implementation that can raise outside its real domain is always behind the (TypeError, '
+            'ValueError) -> complex fallback, never on the fallback-free float fast path, and none '
+            'silently returns a non-principal value (math.cbrt); each real/complex pair is the same '
+            'function; every FPContext slot is bound to the like-named function; mpf/mpc/convert are '
+            'float/complex; no raw mp value escapes; acos/asin do not use bare cmath on the branch cut '
+            '(found and repaired: fp.acos(2) was the conjugate of mp.acos(2)).  Numerical agreement '
+            'with mp to 2^-48 is not decided.',
+            'Trusts the behaviour classes of the math module functions (tables in sa/checks/c43.py).  '
+            'Seeded change C43-1 (wrong 2^52 threshold of a large-argument shortcut) is a value fact and '
+            'is not detected.',
+            'DESIGN.md section 4 (C43)'),
 }
 
 NA_REASONS = {
